@@ -7,7 +7,7 @@
    differs from the amount's (exchange() then leaves the balance alone); two_entries: the
    balance has exactly two commodity entries (the implied-rate branch, stated separately). *)
 From LedgerV Require Import Base.Prelude Base.Round Model.Amount Model.Xact
-  Proofs.AmountProofs Proofs.XactProofs Proofs.GainLossProofs Proofs.VirtualProofs Gen.SourceGuards Model.PostLine Proofs.PostLineProofs.
+  Proofs.AmountProofs Proofs.XactProofs Proofs.GainLossProofs Proofs.VirtualProofs Gen.SourceGuards Model.PostLine Proofs.PostLineProofs Gen.StatusOfCount Proofs.ErrorsProofs.
 From Coq Require Import Qabs.
 Local Open Scope Q_scope.
 
@@ -203,6 +203,14 @@ Example ex_posting_line_gaps :
   split_post_line (a ++ [TAB] ++ [36; 53]%Z) = ((KReal, a), Some [36; 53]%Z) /\
   split_post_line (a ++ [SP] ++ [36; 53]%Z) = ((KReal, a ++ [SP; 36; 53]%Z), None).
 Proof. exact gap_forms_agree. Qed.
+
+(* "exits with a non-zero status": the status is derived from the number of refused items by the expression of main.cc
+   that harness/translators/c12_status.py re-reads on every run (Gen/StatusOfCount.v); the system keeps eight bits of it,
+   and for every positive count those eight bits are not zero *)
+Theorem refused_transactions_give_a_nonzero_status : forall n : Z,
+  (n > 0)%Z -> (status_of_count n mod 256 <> 0)%Z.
+Proof. exact status_of_count_nonzero. Qed.
+Print Assumptions refused_transactions_give_a_nonzero_status.
 
 (* the tie to the source by translation: the lines of /repo/src this model transcribes (harness/translators/src_guards.py
    lists them, with the function each is looked for in) are still there, in the same order, in the source as it is NOW -
